@@ -94,8 +94,24 @@ const basePort = 41001
 func nameOf(idx int) string { return fmt.Sprintf("127.0.0.1:%d", basePort+idx) }
 
 // New boots a cluster of o.N members (sequential joins, all events delivered, stabilised).
+// openClients: the cluster clients of the current cluster. Each owns a background goroutine
+// (periodic routing-table fetch) that only ends with Close; a new cluster closes the clients of the
+// previous one (one cluster is alive per process at a time), or explorations of many thousand
+// executions would keep every old cluster reachable.
+var openClients []*olric.ClusterClient
+
+func closeClients() {
+	for _, cc := range openClients {
+		ctx, cancel := context.WithTimeout(context.Background(), time.Second)
+		_ = cc.Close(ctx)
+		cancel()
+	}
+	openClients = nil
+}
+
 func New(o Opts) *Cluster {
 	o = o.withDefaults()
+	closeClients()
 	world.Reset()
 	simnet.Reset()
 	c := &Cluster{O: o}
@@ -399,6 +415,7 @@ func (c *Cluster) ClusterClient(via *Member) (*olric.ClusterClient, error) {
 	cc.MinRetryBackoff = -1
 	cc.MaxRetryBackoff = -1
 	cl.VerifResetConns()
+	openClients = append(openClients, cl)
 	return cl, nil
 }
 
